@@ -11,7 +11,9 @@ PROP = "C16"
 USE_CACHE = ["omitted", "true", "false"]
 STRUCT = ["omitted", "true", "false"]
 EXTS = ["omitted", "rs", "rs+x", "x"]      # (an explicit empty list is an error exit, below)
-LOCK = ["absent", "valid_ahead", "corrupt", "empty", "out_of_range", "negative", "float", "conflict_markers", "line_plus_junk", "nested_key"]
+LOCK = ["absent", "valid_ahead", "corrupt", "empty", "out_of_range", "negative", "float", "conflict_markers", "line_plus_junk", "nested_key",
+        # a scratch copy of the lock left behind by a killed run is not the lock: same expectations as without it
+        "absent+stale_scratch", "valid_ahead+stale_scratch"]
 MODE = ["check", "edit"]
 TREE = ["missing", "none_missing"]
 LOCKVAL = 1000
@@ -37,7 +39,8 @@ LOCK_TEXT = {"absent": None, "valid_ahead": core.lock_text(LOCKVAL), "corrupt": 
              # unparsable as a whole although a well-formed-looking line is in there
              "conflict_markers": core.LOCK_HEADER + "<<<<<<< HEAD\nnext_reference_id: 2\n=======\nnext_reference_id: 2000\n>>>>>>> feature\n",
              "line_plus_junk": core.LOCK_HEADER + "next_reference_id: 2\n}}} not yaml {{{ : :\n\t- [\n",
-             "nested_key": core.LOCK_HEADER + "cache:\n  next_reference_id: 2\n"}
+             "nested_key": core.LOCK_HEADER + "cache:\n  next_reference_id: 2\n",
+             "absent+stale_scratch": None, "valid_ahead+stale_scratch": core.lock_text(LOCKVAL)}
 
 
 def expected(p):
@@ -57,7 +60,7 @@ def expected(p):
             existing.append(3)
     else:
         existing = [{"src/a.rs": 3, "src/sub/c.rs": 2, "src/b.x": 1}[r] for r in scope]
-    lock_valid = cache and lk == "valid_ahead"
+    lock_valid = cache and lk.startswith("valid_ahead")
     start = LOCKVAL if lock_valid else ((max(existing) + 1) if existing else 1)
     return dict(cache=cache, structured=structured, exts=exts, scope=scope, nmiss=nmiss, start=start,
                 lock_valid=lock_valid, files=files)
@@ -82,7 +85,9 @@ def run_point(built, p, cfgform="absolute"):
         cfg = box.write("Breadlog.yaml", config_text(p))
         lockp = os.path.join(box.proj, "Breadlog.lock")
         if LOCK_TEXT[lk] is not None:
-            open(lockp, "w").write(core.lock_text(LOCKVAL) if lk == "valid_ahead" else LOCK_TEXT[lk])
+            open(lockp, "w").write(core.lock_text(LOCKVAL) if lk.startswith("valid_ahead") else LOCK_TEXT[lk])
+        if lk.endswith("+stale_scratch"):
+            open(lockp + ".tmp", "w").write([core.lock_text(2), core.lock_text(5000), core.LOCK_HEADER, ""][hash(tuple(p)) % 4])
         before = core.snapshot(box.root)
         # how the configuration file is named on the command line must not matter
         cwd, carg = None, None
@@ -108,7 +113,9 @@ def run_point(built, p, cfgform="absolute"):
     obs["lock_opened"] = lock_opened
     changed = {p_ for p_, _ in diff}
     src_changed = sorted(c for c in changed if c.startswith("proj/src/"))
-    other_changed = sorted(c for c in changed if not c.startswith("proj/src/") and c != "proj/Breadlog.lock")
+    other_changed = sorted(c for c in changed if not c.startswith("proj/src/") and c != "proj/Breadlog.lock"
+                           # replacing the lock goes through its scratch name: an edit run with the cache on may consume a stale one
+                           and not (c == "proj/Breadlog.lock.tmp" and exp["cache"] and mode == "edit"))
     if other_changed:
         v.append(("unrelated-file-changed", {"paths": other_changed}))
     if not exp["cache"]:
@@ -150,7 +157,7 @@ def run_point(built, p, cfgform="absolute"):
             v.append(("token-style", {"want": want_style, "got": wrong[:2]}))
         ids = sorted(x["id"] for _, x in toks_all)
         if ids and ids != list(range(exp["start"], exp["start"] + len(ids))):
-            why = "lock-value-not-used" if exp["lock_valid"] else ("unparsable-or-disabled-lock-not-ignored" if LOCK_TEXT[(p[3])] is not None else "scan-start")
+            why = "lock-value-not-used" if exp["lock_valid"] else ("unparsable-or-disabled-lock-not-ignored" if LOCK_TEXT[(p[3])] is not None else ("stale-scratch-copy-used" if p[3].endswith("stale_scratch") else "scan-start"))
             v.append(("id-start:" + why, {"ids": ids, "expected_start": exp["start"]}))
         if exp["cache"]:
             if exp["nmiss"] > 0:
@@ -191,7 +198,10 @@ def work(job):
 
 
 ERRORS = ["missing_config", "invalid_yaml", "yaml_wrong_type", "missing_source_dir", "source_dir_is_file", "no_in_scope_files",
-          "empty_source_dir", "missing_required_key", "explicit_empty_extensions", "use_cache_not_a_bool"]
+          "empty_source_dir", "missing_required_key", "explicit_empty_extensions", "use_cache_not_a_bool",
+          "rust_without_log_macros", "log_macros_misspelt", "rust_is_a_list", "macro_entry_without_name",
+          "source_dir_misspelt", "empty_file", "config_is_a_directory", "yaml_is_a_scalar", "structured_not_a_bool",
+          "extensions_not_a_list", "tab_indented", "binary_garbage"]
 
 
 def error_work(job):
@@ -222,6 +232,31 @@ def error_work(job):
             box.write("Breadlog.yaml", core.make_config(extra="  extensions: []\n"))
         elif kind == "use_cache_not_a_bool":
             box.write("Breadlog.yaml", core.make_config().replace("source_dir: src\n", "source_dir: src\nuse_cache: [1, 2]\n"))
+        elif kind == "rust_without_log_macros":
+            box.write("Breadlog.yaml", "---\nsource_dir: src\nrust:\n  structured: false\n  extensions:\n    - rs\n")
+        elif kind == "log_macros_misspelt":
+            box.write("Breadlog.yaml", core.make_config().replace("log_macros:", "log-macros:"))
+        # (`log_macros:` with no value is read as an empty list, i.e. a valid configuration without macros: not an error case)
+        elif kind == "rust_is_a_list":
+            box.write("Breadlog.yaml", "---\nsource_dir: src\nrust:\n  - module: log\n    name: info\n")
+        elif kind == "macro_entry_without_name":
+            box.write("Breadlog.yaml", "---\nsource_dir: src\nrust:\n  log_macros:\n    - module: log\n")
+        elif kind == "source_dir_misspelt":
+            box.write("Breadlog.yaml", core.make_config().replace("source_dir:", "sourcedir:"))
+        elif kind == "empty_file":
+            box.write("Breadlog.yaml", "")
+        elif kind == "config_is_a_directory":
+            os.makedirs(cfgp)
+        elif kind == "yaml_is_a_scalar":
+            box.write("Breadlog.yaml", "just some text\n")
+        elif kind == "structured_not_a_bool":
+            box.write("Breadlog.yaml", core.make_config().replace("rust:\n", "rust:\n  structured: sometimes\n"))
+        elif kind == "extensions_not_a_list":
+            box.write("Breadlog.yaml", core.make_config(extra="  extensions: rs\n"))
+        elif kind == "tab_indented":
+            box.write("Breadlog.yaml", core.make_config().replace("  log_macros", "\tlog_macros"))
+        elif kind == "binary_garbage":
+            box.write("Breadlog.yaml", b"\x00\xff\xfe---\nsource_dir: src\n\x80\x81")
         elif kind == "empty_source_dir":
             os.makedirs(os.path.join(box.proj, "emptysrc"))
             box.write("Breadlog.yaml", core.make_config(source_dir="emptysrc"))
@@ -232,15 +267,16 @@ def error_work(job):
         res["inconclusive"]["run-crashed (C17's business)"] = 1
         return res
     res["nontrivial"].append("error|%s|%s|lock=%s" % (kind, mode, with_lock))
+    kind0 = kind
     kind = kind + ("+lock" if with_lock else "")
     res["counters"]["error_exits"] = 1
     diff = core.snap_diff(before, after, meta=False)
     if r.rc == 0 or r.sig:
         res["violations"].append({"signature": "C16.error-exit-status|%s|%s" % (kind, mode), "detail": {"end": r.ended(), "stdout": r.out[-300:]},
-                                  "case": {"error": kind, "mode": mode}})
+                                  "case": {"error": kind0, "mode": mode, "with_lock": with_lock}})
     if diff:
         res["violations"].append({"signature": "C16.error-run-changed-files|%s|%s" % (kind, mode), "detail": {"diff": diff},
-                                  "case": {"error": kind, "mode": mode}})
+                                  "case": {"error": kind0, "mode": mode, "with_lock": with_lock}})
     return res
 
 
@@ -282,7 +318,7 @@ def replay_witness(w, ck=None, built=None):
     if "point" in c:
         v, _, _, _ = run_point(built, tuple(c["point"]), c.get("cfgform", "absolute"))
         return bool(v) and v != "c03"
-    r = error_work((built, c["error"], c["mode"]))
+    r = error_work((built, c["error"].replace("+lock", ""), c["mode"], c.get("with_lock", c["error"].endswith("+lock"))))
     return bool(r["violations"])
 
 
